@@ -20,11 +20,11 @@ Definition feed_content (retries : nat) (s : st) (c : Z) (cname spch : string) (
       let a0 := {| a_st := s0; a_h := h; a_first := None; a_out := []; a_need := false; a_fwd := None; a_ans := answers; a_cname := "" |} in
       match all_msgs retries a0 (sort_msgs (p_msgs p)) with
       | CErr s1 => FDone {| dcolls := dcolls s1; dparts := dparts s1; handlers := handlers s1; clocks := clocks s1; heap := heap s1; cbars := cbars s1;
-                            pbars := pbars s1; pbar_handlers := pbar_handlers s1; keymap := keymap s1; out := out s1; events := events s1; alive := alive s1 |}
+                            pbars := pbars s1; pbar_handlers := pbar_handlers s1; keymap := keymap s1; out := out s1; events := events s1; alive := alive s1; mg := mg s1; wsh := wsh s1 |}
       | COk a =>
           let s1 := a_st a in
           let s1 := {| dcolls := dcolls s1; dparts := dparts s1; handlers := set_handler s1 (a_h a); clocks := clocks s1; heap := heap s1; cbars := cbars s1;
-                       pbars := pbars s1; pbar_handlers := pbar_handlers s1; keymap := keymap s1; out := out s1; events := events s1; alive := alive s1 |} in
+                       pbars := pbars s1; pbar_handlers := pbar_handlers s1; keymap := keymap s1; out := out s1; events := events s1; alive := alive s1; mg := mg s1; wsh := wsh s1 |} in
           let lab_coll := (c, cname, spch) in
           match a_fwd a with
           | Some tgt =>
@@ -35,7 +35,7 @@ Definition feed_content (retries : nat) (s : st) (c : Z) (cname spch : string) (
                   FEmit s2 tgt fl begin (p_end p) (sort_emsgs (a_out a)) (existsb (fun e => mkind_eqb (e_kind e) KDropColl) (a_out a))
               | None => FDone {| dcolls := dcolls s1; dparts := dparts s1; handlers := handlers s1; clocks := clocks s1; heap := heap s1; cbars := cbars s1;
                                  pbars := pbars s1; pbar_handlers := pbar_handlers s1; keymap := keymap s1; out := out s1;
-                                 events := (events s1 ++ [EvErr true])%list; alive := alive s1 |}
+                                 events := (events s1 ++ [EvErr true])%list; alive := alive s1; mg := mg s1; wsh := wsh s1 |}
               end
           | None => FEmit s1 (h_tgt h) lab_coll begin (p_end p)
                           (map (fun e => {| e_kind := e_kind e; e_id := e_id e; e_coll := e_coll e; e_part := e_part e;
